@@ -8,6 +8,7 @@ from ..core import AnalysisError
 from ..rules import gen_c1419 as G
 from ..rules import dim_c1419 as D
 from ..rules import hi_exec as X
+from ..rules import hi_norm as N
 from ..rules import hi_conn as C
 from ..rules import hi_flow as F
 from ..rules.hi_conn import GenSpec
@@ -21,7 +22,10 @@ EXPLANATION = (
     "that the returned coordinates have degree 1, are translated with the centre / box and depend on every geometric parameter on "
     "every path (one run per sampling mode), and that the returned array has n_pts rows which the fill loop covers (R-DIM, count). "
     "Data-flow rules read the definitions that reach a use through every binding form (assignments, unpacking, in-place updates, "
-    "walrus, branches, loop / comprehension / zip targets), so loop and vectorised spellings give the same tree: barycentric "
+    "walrus, branches, loop / comprehension / zip targets) and see through private helpers of the module, nested functions, "
+    "NamedTuple / dataclass records, plain value classes, generator helpers and dispatch tables (calls are replaced by the value "
+    "they return; match statements, map / partial / __getitem__ are first rewritten into their if / comprehension / subscript "
+    "equivalents, rules/hi_norm.py), so loop, vectorised and delegated spellings give the same tree: barycentric "
     "combinations are converted to polynomial forms (weights sum to 1 identically, non-negative on the unit box of the draws), the "
     "combined vertices are those of the drawn element, the draw weights are length / area of the current geometry divided by their "
     "own sum. Control points are consumed only through de_casteljau, whose range guard is compared with `t<0 or t>1` under every "
@@ -47,20 +51,24 @@ RULES = {
               "which would be stale after the vertices moved",
     "C19-E1": "AABB.is_empty is the per-axis predicate `some axis has mini >= maxi` (decided by evaluating its expression on every "
               "box with coordinates in {0,1,2}, dimensions 1-3), and sample_AABB raises on an empty box at the top level, before "
-              "any mode branch or draw",
+              "any mode branch or draw (a test written on the corners themselves is evaluated on the same boxes: every empty one must raise)",
     "C19-G1": "control points are never operands of arithmetic outside de_casteljau; evaluation methods return "
               "de_casteljau results and forward their own parameters; the range guard of de_casteljau is `t<0 or t>1`, raises, "
               "precedes every rebinding of t; de_casteljau never stores through (an alias of) its argument, never updates an entry "
               "of a shallow copy in place, and a blend stored in place goes to a float array",
     "C19-P1": "sample_AABB, grid mode: the per-axis resolution handed to linspace is the *rounded* dim-th root of n_pts (the number of "
               "points is the nearest perfect power), not its truncation or ceiling",
-    "C19-S1": "BezierPatch.as_surface (evaluated for small unequal resolutions): all indices in [0,|V|), the faces form a consistently "
+    "C19-S1": "BezierCurve.as_polyline (custom_pos=None, small n_pts): n_pts vertices chained by the edges (i,i+1), the `t` attribute of "
+              "vertex k is the parameter it was evaluated at, the parameter linspace is consumed entirely; "
+              "BezierPatch.as_surface (evaluated for small unequal resolutions): all indices in [0,|V|), the faces form a consistently "
               "oriented disk, |V| = n1*n2, (n1-1)(n2-1) quads, the uv attribute key addresses the vertex evaluated at the same "
               "parameters, parameter samples are consumed over their whole linspace",
 }
 
 ASSUMPTIONS = [
     "sample_AABB modes are the literals listed in its check_argument call; grid-mode row count (nearest perfect power) is not decided",
+    "loops over the samples are assumed to run (n_pts >= 1); a path taken only for a count of zero whose result has zero rows carries no obligation",
+    "a function expression / partial argument is not rebound between the creation of a map / generator and its consumption",
     "as_surface resolutions n1, n2 in [2, 5] (bounded evaluation)",
 ]
 
@@ -75,18 +83,19 @@ ELEMENT = (("sample_polyline", "edges", "edge_length"), ("sample_surface", "face
 
 
 def run(ctx):
-    d1_n1_samplers(ctx)
-    aabb_accessors(ctx)
-    b1_barycentric(ctx)
-    f1_drawn_element(ctx)
-    w_weights(ctx)
-    e1_empty_box(ctx)
-    p1_grid_resolution(ctx)
-    g1_de_casteljau(ctx)
-    s1_as_surface(ctx)
-    ctx.repo.func(BEZ, "BezierCurve.as_polyline")
-    ctx.declare_unsupported("BezierCurve.as_polyline: vertices are appended under a test on the point size and custom_pos decouples "
-                            "the vertex count from n_pts (no index rule applied; evaluation path covered by C19-G1)")
+    N.normalise(ctx.repo, [SAMP, BEZ, AABB])
+    from .c14 import guarded
+    guarded(ctx, "C19-D1", SAMP, "homogeneity, dependence and row counts of the samplers", d1_n1_samplers)
+    guarded(ctx, "C19-D1", AABB, "AABB accessors", aabb_accessors)
+    guarded(ctx, "C19-B1", SAMP, "barycentric combinations", b1_barycentric)
+    guarded(ctx, "C19-F1", SAMP, "drawn elements", f1_drawn_element)
+    guarded(ctx, "C19-W1", SAMP, "draw weights", w_weights)
+    guarded(ctx, "C19-E1", AABB, "empty boxes", e1_empty_box)
+    guarded(ctx, "C19-P1", SAMP, "grid resolution", p1_grid_resolution)
+    guarded(ctx, "C19-G1", BEZ, "de Casteljau evaluation", g1_de_casteljau)
+    guarded(ctx, "C19-S1", BEZ, "connectivity of as_surface", s1_as_surface)
+    ctx.declare_unsupported("BezierCurve.as_polyline is decided for custom_pos=None, 3D control points and n_pts in [2, 5] (bounded evaluation); "
+                            "with custom_pos the vertex count follows the given parameters, not n_pts")
     ctx.declare_unsupported("sample_AABB(mode='grid'): number of rows res**dim (nearest perfect power) is not decided")
     ctx.declare_unsupported("statistical behaviour of the draws (numpy choice / random) is trusted, only the wiring of the weights is decided")
     ctx.declare_unsupported("BezierPatch.as_surface is decided for resolutions in [2, 5] only (bounded evaluation)")
@@ -106,7 +115,7 @@ def n1_obligations(ctx, key, fn, it, label=""):
                 continue        # an empty result answered up front (n_pts == 0 ...)
             n += 1
             alts = sorted(rows, key=str) if isinstance(rows, D.AltDim) else [rows]
-            vague = lambda x: not isinstance(x, Poly) or any("@" in a or (a.startswith("⟨") and "n_pts" in a) for a in x.atoms())
+            vague = lambda x: not isinstance(x, Poly) or any("@" in a or a.startswith("⟨") for a in x.atoms())
             if any(vague(x) for x in alts) and not all(D.same_dim(x, npts) for x in alts):
                 ctx.undecided("C19-N1", ctx.site(key[0], fn, node), f"row count of an array returned by {key[1]}{label} is not comparable with n_pts",
                               f"leading dimension `{rows}`")
@@ -147,9 +156,17 @@ def d1_n1_samplers(ctx):
     fn = ctx.repo.func(*key)
     site = ctx.site(SAMP, fn)
     modes = None
+    fl_modes = flow_of(ctx, SAMP, fn)
     for c in au.calls(fn):
         if au.call_tail(c) == "check_argument" and len(c.args) >= 4 and au.src(c.args[1]) == "mode":
             modes = au.literal(c.args[3])
+            if not modes:
+                # the admissible modes named through a constant / the keys of a dispatch table
+                r_ = F.strip_calls(fl_modes.resolve(c.args[3], at=c), ("list", "tuple", "sorted", "keys", "set", "frozenset"))
+                if isinstance(r_, ast.Dict) and all(isinstance(k_, ast.Constant) for k_ in r_.keys):
+                    modes = [k_.value for k_ in r_.keys]
+                else:
+                    modes = au.literal(r_)
     if not modes or "mode" not in au.params(fn):
         ctx.undecided("C19-D1", site, "list of sampling modes of sample_AABB not found",
                       "check_argument('mode', mode, str, [...]) gives the modes to analyse")
@@ -160,7 +177,8 @@ def d1_n1_samplers(ctx):
         # the box must reach the result: position and extent
         finals = []
         for node, v in it.returns:
-            finals.append((node, v.verts if v.verts is not None else v))
+            if not v.empty:
+                finals.append((node, v.verts if v.verts is not None else v))
         bad = unknown = None
         for node, v in finals:
             if v.deps is None:
@@ -190,6 +208,38 @@ def d1_n1_samplers(ctx):
                 ctx.undecided("C19-N1", site, f"row count of sample_AABB(mode='{mode}') is not derivable", "")
 
 
+def helpers_of(ctx, mod, fn):
+    """private helpers a function may delegate to: the underscore functions of its module and, for a method, the underscore methods of its class
+    (`self.name`).  Calls to them are seen through by the data-flow resolver (rules/hi_flow.py)."""
+    m = ctx.repo.module(mod)
+    owner = next((q.rsplit(".", 1)[0] for q, f in m.funcs.items() if f is fn and "." in q), None)
+    out = {}
+    for q, f in m.funcs.items():
+        if f is fn:
+            continue
+        if "." not in q:
+            if q.startswith("_"):
+                out[q] = f
+        elif owner is not None and q.rsplit(".", 1)[0] == owner:
+            name = q.rsplit(".", 1)[1]
+            if name.startswith("_") and not name.startswith("__") and not any(isinstance(d, ast.Name) and d.id == "property" for d in f.decorator_list) \
+                    and name not in KEEP_METHODS:
+                out["self." + name] = f
+    for q, c in m.classes.items():
+        if "." not in q and (F.record_info(c) is not None or F.object_info(c) is not None):
+            out["record:" + q] = c
+    for n, v in F.module_constants(m.tree).items():
+        out["const:" + n] = v
+    return out
+
+
+KEEP_METHODS = ("_evaluate_row",)       # methods the rules look at by name
+
+
+def flow_of(ctx, mod, fn):
+    return F.Flow(fn, helpers_of(ctx, mod, fn))
+
+
 def aabb_accessors(ctx):
     """`mini + span * u` spans the box iff span == maxi - mini."""
     rets = {}
@@ -206,14 +256,19 @@ def aabb_accessors(ctx):
         return
     props = _aabb_props(ctx)
 
-    def poly(e):
+    def poly(e, busy=()):
         def atom_of(n):
             if isinstance(n, ast.Attribute) and isinstance(n.value, ast.Name) and n.value.id == "self":
-                if n.attr in ("mini", "maxi") and n.attr in props:
-                    return poly(props[n.attr])
+                if n.attr in props and n.attr not in busy and len(busy) < 6:
+                    return poly(props[n.attr], busy + (n.attr,))       # a property defined from the stored corners
                 return au.src(n)
+            if isinstance(n, ast.Subscript) and isinstance(au.const(n.slice), int) and isinstance(n.value, ast.Attribute) \
+                    and isinstance(n.value.value, ast.Name) and n.value.value.id == "self":
+                return au.src(n)        # one of the corners kept in a pair
+            if isinstance(n, ast.Attribute) and au.chain(n) and au.chain(n)[0] == "self" and len(au.chain(n)) == 3:
+                return au.src(n)        # a field of a record holding the corners (self._bounds.lower)
             if isinstance(n, ast.Call) and au.call_tail(n) in ("Vec", "array", "asarray") and len(n.args) == 1:
-                return poly(n.args[0])
+                return poly(n.args[0], busy)
             return None
         return sym.to_poly(e, atom_of)
     try:
@@ -484,6 +539,10 @@ def _combinations(fn, fl, mesh_p, keep, min_points=2):
             r = expand_weighted_sums(as_operators(fl.resolve(v, at=st, keep=keep)))
             r = F.strip_calls(r, CONVERT + ("from_arrays",))
             for conds, leaf in F.alternatives(r):
+                inner = F.strip_calls(leaf, CONVERT)
+                if isinstance(inner, (ast.ListComp, ast.GeneratorExp)) and len(inner.generators) == 1 and not inner.generators[0].ifs \
+                        and not (set(au.assigned_names(inner.generators[0].target)) & au.names(inner.elt)):
+                    leaf = inner.elt        # one sample per element of the sequence: the sample itself
                 if len({au.norm(x) for x in _points(leaf, mesh_p)}) >= min_points and au.norm(leaf) not in seen:
                     seen.add(au.norm(leaf))
                     out.append((st, leaf))
@@ -494,7 +553,7 @@ def b1_barycentric(ctx):
     for name, container, measure in ELEMENT:
         fn = ctx.repo.func(SAMP, name)
         site = ctx.site(SAMP, fn)
-        fl = F.Flow(fn)
+        fl = flow_of(ctx, SAMP, fn)
         mesh_p = au.params(fn)[0]
         unit = _unit_names(fn)
         combos = _combinations(fn, fl, mesh_p, keep=unit)
@@ -518,8 +577,25 @@ def b1_barycentric(ctx):
             for pre in ("np.sqrt(", "sqrt(", "numpy.sqrt(", "math.sqrt("):
                 if inner.startswith(pre) and inner.endswith(")"):
                     arg = inner[len(pre):-1]
-                    return arg in unit or any(arg.startswith(u + "[") for u in unit)
-            return False
+                    if arg in unit or any(arg.startswith(u + "[") for u in unit):
+                        return True
+            # a draw used in place (argument of a helper that was seen through): random(), random(2)[0], sqrt(random())
+            try:
+                tree = ast.parse(inner, mode="eval").body
+            except SyntaxError:
+                return False
+
+            def unit_expr(x):
+                if isinstance(x, ast.Name):
+                    return x.id in unit
+                if _is_draw(x):
+                    return True
+                if isinstance(x, ast.Subscript):
+                    return unit_expr(x.value)
+                if isinstance(x, ast.Call) and au.call_tail(x) == "sqrt" and len(x.args) == 1:
+                    return unit_expr(x.args[0])
+                return False
+            return unit_expr(tree)
         for st, expr in combos:
             bary_check(ctx, SAMP, fn, st, expr, point_key, unit_pred, name)
     b1_de_casteljau(ctx)
@@ -538,7 +614,12 @@ def _unit_cube_source(n, box_p):
         return False
     allowed = {"linspace", "meshgrid", "ravel", "vstack", "hstack", "stack", "column_stack", "list", "tuple", "map", "array", "asarray",
                "reshape", "flatten", "transpose", "range", "round", "power", "int", "rint", "ceil", "floor", "max", "min", "len", "product"}
+    allowed |= {"__elem__"}          # an element of such an array (loop / comprehension variable)
+    index_positions = {id(y) for x in ast.walk(n) if isinstance(x, ast.Subscript) for y in ast.walk(x.slice)} | \
+                      {id(y) for l in lins for x in l.args[2:] + [k.value for k in l.keywords] for y in ast.walk(x)}
     for c in ast.walk(n):
+        if isinstance(c, ast.Call) and au.call_tail(c) in ("__range__", "__index__") and id(c) in index_positions:
+            continue
         if isinstance(c, ast.Call) and au.call_tail(c) not in allowed:
             return False
         if isinstance(c, ast.BinOp) and not any(c is x or any(c is y for y in ast.walk(x)) for l in lins for x in l.args[2:] + [k.value for k in l.keywords]):
@@ -550,14 +631,14 @@ def b1_box(ctx):
     """sample_AABB: every returned point is a combination (1-u)*mini + u*maxi of the two corners with u in [0,1], in every mode"""
     fn = ctx.repo.func(SAMP, "sample_AABB")
     site = ctx.site(SAMP, fn)
-    fl = F.Flow(fn)
+    fl = flow_of(ctx, SAMP, fn)
     box_p = au.params(fn)[0]
     n_found = 0
     seen = set()
     for st in au.stmts(fn.body):
         if not (isinstance(st, ast.Return) and st.value is not None):
             continue
-        r = F.strip_calls(fl.resolve(st.value, at=st, keep=(box_p,)), CONVERT + ("from_arrays",))
+        r = F.strip_calls(as_operators(fl.resolve(st.value, at=st, keep=(box_p,))), CONVERT + ("from_arrays",))
         for conds, leaf in F.expand(r):
             leaf = F.strip_calls(leaf, CONVERT + ("from_arrays",))
             if isinstance(leaf, ast.Name) or au.norm(leaf) in seen:
@@ -628,19 +709,32 @@ def _entry(node, work):
         if isinstance(s, ast.Tuple):
             return None
         return ("idx", sym.to_poly(s))
+    if isinstance(node, ast.Subscript) and F.is_synth(node.value, "__elem__") and len(node.value.args) == 1 and au.const(node.slice) in (0, 1):
+        pw = F.strip_calls(node.value.args[0], ("list", "tuple", "iter"))
+        if isinstance(pw, ast.Call) and au.call_tail(pw) == "pairwise" and len(pw.args) == 1:
+            seq = F.strip_calls(pw.args[0], ("list", "tuple", "iter"))
+            if isinstance(seq, ast.Name) and seq.id in work:
+                return ("el", au.const(node.slice), None)        # pairwise(X): the pairs (X[i], X[i+1])
     if F.is_synth(node, "__elem__") and len(node.args) == 1:
         a = node.args[0]
         a = F.strip_calls(a, ("list", "tuple", "iter"))
+        if isinstance(a, ast.Call) and au.call_tail(a) == "islice" and 2 <= len(a.args) <= 3 and not a.keywords:
+            # islice(X, stop) / islice(X, start, stop)  ==  X[start:stop]
+            lo, hi = (None, a.args[1]) if len(a.args) == 2 else (a.args[1], a.args[2])
+            none = lambda x: x is None or (isinstance(x, ast.Constant) and x.value is None)
+            a = ast.Subscript(value=a.args[0], slice=ast.Slice(lower=None if none(lo) else lo, upper=None if none(hi) else hi, step=None), ctx=ast.Load())
+        elif isinstance(a, ast.Call) and au.call_tail(a) == "pairwise":
+            a = None
+        if a is None:
+            return None
         if isinstance(a, ast.Name) and a.id in work:
-            return ("el", 0)
+            return ("el", 0, None)
         if isinstance(a, ast.Subscript) and isinstance(a.value, ast.Name) and a.value.id in work and isinstance(a.slice, ast.Slice) \
-                and a.slice.step is None and a.slice.upper is None:
+                and a.slice.step is None:
+            # work[k:], work[:-1] zipped with work[1:], work[:n] zipped with work[1:n+1]
             k = au.const(a.slice.lower) if a.slice.lower is not None else 0
-            if isinstance(k, int):
-                return ("el", k)
-        if isinstance(a, ast.Subscript) and isinstance(a.value, ast.Name) and a.value.id in work and isinstance(a.slice, ast.Slice) \
-                and a.slice.step is None and a.slice.lower is None and a.slice.upper is not None:
-            return ("el", 0)     # work[:-1] zipped with work[1:]
+            if isinstance(k, int) and not isinstance(k, bool) and k >= 0:
+                return ("el", k, sym.to_poly(a.slice.upper) if a.slice.upper is not None else None)
     return None
 
 
@@ -650,7 +744,9 @@ def _is_next(cur, nxt):
     if cur[0] == "idx":
         return nxt[1] - cur[1] == Poly.const(1)
     if cur[0] == "el":
-        return nxt[1] - cur[1] == 1
+        # zip stops at the shorter sequence: the upper bounds matter only when both are given
+        return nxt[1] - cur[1] == 1 and (cur[2] is None or nxt[2] is None or nxt[2] - cur[2] == Poly.const(1)
+                                         or (cur[2] - Poly.const(-1)).is_zero())
     if cur[0] == "sl":
         ok_lo = nxt[1] - cur[1] == Poly.const(1)
         ok_hi = (cur[2] is None and nxt[2] is None) or (cur[2] is not None and nxt[2] is not None and nxt[2] - cur[2] == Poly.const(1))
@@ -666,7 +762,7 @@ def b1_de_casteljau(ctx):
         ctx.undecided("C19-B1", site, "de_casteljau does not take (control points, t)", "")
         return
     P, t = ps
-    fl = F.Flow(fn)
+    fl = flow_of(ctx, BEZ, fn)
     # names of the working list: the parameter and every local sequence derived from it
     work = {P}
     changed = True
@@ -686,10 +782,14 @@ def b1_de_casteljau(ctx):
             tg = st.targets[0]
             if isinstance(tg, ast.Subscript) and isinstance(tg.value, ast.Name) and tg.value.id in work \
                     and any(isinstance(a, (ast.For, ast.While)) for a in au.ancestors(st)):
-                cands.append((st, tg, st.value))
-            elif isinstance(tg, ast.Name) and tg.id in work and isinstance(st.value, (ast.ListComp, ast.GeneratorExp)) \
-                    and isinstance(st.value.elt, ast.BinOp):
-                cands.append((st, None, st.value.elt))
+                level = F.strip_calls(st.value, ("list", "tuple", "array", "asarray"))
+                if isinstance(level, (ast.ListComp, ast.GeneratorExp)) and isinstance(level.elt, ast.BinOp) and isinstance(tg.slice, ast.Slice):
+                    cands.append((st, tg, level.elt))       # a whole level stored at once: work[:n] = [blend ...]
+                else:
+                    cands.append((st, tg, st.value))
+            elif isinstance(tg, ast.Name) and tg.id in work and isinstance(F.strip_calls(st.value, ("list", "tuple")), (ast.ListComp, ast.GeneratorExp)) \
+                    and isinstance(fl.resolve(F.strip_calls(st.value, ("list", "tuple")).elt, at=st, keep=tuple(work) + (t,)), ast.BinOp):
+                cands.append((st, None, F.strip_calls(st.value, ("list", "tuple")).elt))     # the blend may be written in a helper
         for c in au.calls(st) if isinstance(st, (ast.Return, ast.Expr, ast.Assign)) else []:
             if au.call_tail(c) == "de_casteljau" and c.args and isinstance(c.args[0], (ast.ListComp, ast.GeneratorExp)) \
                     and isinstance(c.args[0].elt, ast.BinOp):
@@ -697,10 +797,17 @@ def b1_de_casteljau(ctx):
     if not cands:
         # a level built inside a lambda / nested function (functools.reduce over the levels ...)
         for n in ast.walk(fn):
-            if isinstance(n, (ast.ListComp, ast.GeneratorExp)) and isinstance(n.elt, ast.BinOp) and t in au.names(fl.resolve(n.elt, at=n.elt, keep=(t,))):
+            if isinstance(n, (ast.ListComp, ast.GeneratorExp)) and isinstance(fl.resolve(n.elt, at=n.elt, keep=(t,)), ast.BinOp) \
+                    and t in au.names(fl.resolve(n.elt, at=n.elt, keep=(t,))):
                 st_ = au.enclosing_stmt(n) or fn.body[0]
                 for g in n.generators:
                     work |= {x.id for x in ast.walk(g.iter) if isinstance(x, ast.Name)}
+                # the level handed to a nested function / lambda as a parameter
+                inner = next((a for a in au.ancestors(n) if isinstance(a, (ast.FunctionDef, ast.Lambda)) and a is not fn), None)
+                if inner is not None:
+                    r_elt = fl.resolve(n.elt, at=n.elt, keep=(t,))
+                    work |= {x.value.id for x in ast.walk(r_elt) if isinstance(x, ast.Subscript) and isinstance(x.value, ast.Name)
+                             and x.value.id in au.params(inner)}
                 cands.append((st_, None, n.elt))
     if not cands:
         ctx.undecided("C19-B1", site, "de_casteljau: blend of neighbouring entries not found",
@@ -708,6 +815,22 @@ def b1_de_casteljau(ctx):
         return
     for st, tg, val in cands:
         expr = fl.resolve(val, at=val, keep=tuple(work) + (t,))
+        # free variables of a nested function are the variables of de_casteljau at the definition of that function (`s = 1 - t` hoisted)
+        inner = next((a for a in au.ancestors(val) if isinstance(a, (ast.FunctionDef, ast.Lambda)) and a is not fn), None) \
+            if getattr(val, "_parent", None) is not None else None
+        if inner is not None:
+            top = inner
+            while au.parent(top) is not None and au.parent(top) is not fn:
+                top = au.parent(top)
+            anchor = top if isinstance(top, ast.stmt) else au.enclosing_stmt(top)
+            free = {x.id for x in ast.walk(expr) if isinstance(x, ast.Name)} - work - {t} - set(au.params(inner))
+            sub = {}
+            for nm in sorted(free):
+                v = fl.resolve(ast.Name(id=nm, ctx=ast.Load()), at=anchor, keep=tuple(work) + (t,)) if anchor is not None else None
+                if v is not None and not (isinstance(v, ast.Name) and v.id == nm):
+                    sub[nm] = v
+            if sub:
+                expr = sym.subst(expr, sub)
         entries = {}
 
         def point_key(n):
@@ -726,7 +849,12 @@ def b1_de_casteljau(ctx):
         ok = len(w) == 2 and len(cur) == 1 and len(nxt) == 1 and _is_next(entries[cur[0]], entries[nxt[0]])
         if ok and tg is not None:
             te = _entry(F.clone(fl.resolve(ast.Subscript(value=tg.value, slice=tg.slice, ctx=ast.Load()), at=st, keep=tuple(work) + (t,))), work)
-            ok = te is not None and te == entries[cur[0]]
+            ce = entries[cur[0]]
+            if te is not None and te[0] == "sl" and ce[0] == "el":
+                # a level stored through a slice: it must start where the `1-t` entries start (and not be longer)
+                ok = te[1] == Poly.const(ce[1]) and (ce[2] is None or te[2] is None or te[2] == ce[2])
+            else:
+                ok = te is not None and te == ce
         ctx.check(ok, "C19-B1", ctx.site(BEZ, fn, st),
                   "de_casteljau: the blend is not `entry[i] = t*entry[i+1] + (1-t)*entry[i]`",
                   f"weights {dict((k, str(v)) for k, v in w.items())}: B(0) must be the first control point and B(1) the last",
@@ -768,7 +896,7 @@ def f1_drawn_element(ctx):
     for name, container, measure in ELEMENT:
         fn = ctx.repo.func(SAMP, name)
         site = ctx.site(SAMP, fn)
-        fl = F.Flow(fn)
+        fl = flow_of(ctx, SAMP, fn)
         mesh_p = au.params(fn)[0]
         unit = _unit_names(fn)
         combos = _combinations(fn, fl, mesh_p, keep=unit, min_points=1)
@@ -978,19 +1106,25 @@ def w_weights(ctx):
     for name, container, measure in ELEMENT:
         fn = ctx.repo.func(SAMP, name)
         site = ctx.site(SAMP, fn)
-        fl = F.Flow(fn)
+        fl = flow_of(ctx, SAMP, fn)
         mesh_p = au.params(fn)[0]
         what_ = measure.split("_")[1]
-        draws = [c for c in au.calls(fn) if au.call_tail(c) == "choice"]
+        draws = [(c, c) for c in au.calls(fn) if au.call_tail(c) == "choice"]
+        if not draws:
+            # the draw delegated to a private helper: seen through, in the caller's terms
+            for hc in au.calls(fn):
+                if F.helper_key(hc) in fl.helpers:
+                    r_ = fl.resolve(hc, at=hc)
+                    draws += [(c, hc) for c in ast.walk(r_) if isinstance(c, ast.Call) and au.call_tail(c) == "choice"]
         if not draws:
             ctx.undecided("C19-W1", site, f"{name}: the weighted draw `choice(n_elements, size=n_pts, p=weights)` not found", "no call of choice")
             ctx.undecided("C19-W2", site, f"{name}: weight array of the draw not found", "no call of choice")
             continue
-        for c in draws:
-            s = ctx.site(SAMP, fn, c)
+        for c, at_ in draws:
+            s = ctx.site(SAMP, fn, at_)
             # ---- population
             pop_e = c.args[0] if c.args else next((k.value for k in c.keywords if k.arg == "a"), None)
-            pop = fl.resolve(pop_e, at=c) if pop_e is not None else None
+            pop = fl.resolve(pop_e, at=at_) if pop_e is not None else None
             cont = None
             if pop is not None:
                 p2 = F.strip_calls(pop, ("int",))
@@ -1016,7 +1150,7 @@ def w_weights(ctx):
                 ctx.undecided("C19-W2", s, f"{name}: weight array of the draw not found", "reported in detail by C19-W1")
                 continue
             helpers_ = {q: f_ for q, f_ in ctx.repo.module(SAMP).funcs.items() if "." not in q and q != name}
-            p = _as_division(as_operators(F.inline_calls(fl.resolve(pk, at=c), helpers_)))
+            p = _as_division(as_operators(F.inline_calls(fl.resolve(pk, at=at_), helpers_)))
             for conds, leaf in F.alternatives(p):
                 leaf = _as_division(F.strip_calls(leaf, ("asarray", "array", "abs")))
                 if isinstance(leaf, ast.BinOp) and isinstance(leaf.op, ast.Div):
@@ -1082,8 +1216,11 @@ def _is_root(n, fl_names):
     if isinstance(n, ast.BinOp) and isinstance(n.op, ast.Pow) and "n_pts" in au.names(n.left):
         return any(isinstance(x, ast.BinOp) and isinstance(x.op, ast.Div) for x in ast.walk(n.right)) or (
             isinstance(au.const(n.right), float) and 0 < au.const(n.right) < 1)
-    if isinstance(n, ast.Call) and au.call_tail(n) == "power" and len(n.args) == 2 and "n_pts" in au.names(n.args[0]):
+    if isinstance(n, ast.Call) and au.call_tail(n) in ("power", "pow", "float_power") and len(n.args) == 2 and "n_pts" in au.names(n.args[0]):
         return True
+    if isinstance(n, ast.Call) and au.call_tail(n) == "exp" and n.args and any(isinstance(x, ast.Call) and au.call_tail(x) in ("log", "log2", "log10")
+                                                                               and x.args and "n_pts" in au.names(x.args[0]) for x in ast.walk(n.args[0])):
+        return True         # exp(log(n_pts) / d)
     if isinstance(n, ast.Call) and au.call_tail(n) in ("cbrt", "sqrt") and n.args and "n_pts" in au.names(n.args[0]):
         return True
     return False
@@ -1103,18 +1240,26 @@ def _root_chains(e, chain=()):
 def p1_grid_resolution(ctx):
     fn = ctx.repo.func(SAMP, "sample_AABB")
     site = ctx.site(SAMP, fn)
-    fl = F.Flow(fn)
+    fl = flow_of(ctx, SAMP, fn)
     found = 0
-    for c in au.calls(fn):
-        if au.call_tail(c) != "linspace":
-            continue
+    sources = [(c, c) for c in au.calls(fn) if au.call_tail(c) == "linspace"]
+    if not sources:
+        # the grid built by a helper: read from the returned value, in the caller's terms
+        seen_ = set()
+        for st in au.stmts(fn.body):
+            if isinstance(st, ast.Return) and st.value is not None:
+                for c in ast.walk(fl.resolve(st.value, at=st, keep=("n_pts",))):
+                    if isinstance(c, ast.Call) and au.call_tail(c) == "linspace" and au.norm(c) not in seen_:
+                        seen_.add(au.norm(c))
+                        sources.append((c, st))
+    for c, at_ in sources:
         num = c.args[2] if len(c.args) >= 3 else next((k.value for k in c.keywords if k.arg == "num"), None)
         if num is None:
             continue
-        r = fl.resolve(num, at=c, keep=("n_pts",))
+        r = fl.resolve(num, at=at_, keep=("n_pts",))
         for chain in _root_chains(r):
             found += 1
-            s = ctx.site(SAMP, fn, c)
+            s = ctx.site(SAMP, fn, at_)
             kinds = []
             for k, w in enumerate(chain):
                 if isinstance(w, ast.Call):
@@ -1176,6 +1321,18 @@ def _is_eval_call(x):
     return _is_dc(x) or (isinstance(x, ast.Call) and isinstance(x.func, ast.Attribute) and au.is_self_attr(x.func) and x.func.attr in EVAL_METHODS)
 
 
+_FLOAT_DTYPES = ("float", "np.float64", "numpy.float64", "np.double", "numpy.double", "'float'", "'float64'", "np.float_", "np.float32", "numpy.float32",
+                 "'float32'", "'d'", "'f8'", "'f4'", "np.longdouble", "np.float128", "np.floating", "complex", "np.complex128", "'double'")
+_INT_DTYPES = ("int", "np.int64", "numpy.int64", "np.int32", "numpy.int32", "np.intp", "np.int_", "'int'", "'int64'", "'int32'", "'i8'", "'i4'", "'i'",
+               "bool", "np.bool_", "np.uint32", "np.uint64", "np.int16", "np.int8", "np.uint8", "np.integer")
+
+
+def _dtype_kind(node):
+    """True: a floating dtype is requested, False: an integer one, '?': a dtype is requested but its spelling is not recognised"""
+    src = au.src(node).replace('"', "'")
+    return True if src in _FLOAT_DTYPES else False if src in _INT_DTYPES else "?"
+
+
 def _alias_kind(d, P):
     """how a (resolved) working value relates to the parameter P: 'alias' (may be P itself), 'shallow' (new list, same entries),
     'deep' (new array of new entries), 'fresh' (unrelated), None (unknown).  Second result: float dtype requested (True/False/None)."""
@@ -1186,7 +1343,7 @@ def _alias_kind(d, P):
         arg = d.args[0] if d.args else None
         on_p = arg is not None and isinstance(arg, ast.Name) and arg.id == P
         dtype = next((k.value for k in d.keywords if k.arg == "dtype"), d.args[1] if (t in ("array", "asarray", "asanyarray") and len(d.args) > 1) else None)
-        isfloat = None if dtype is None else (au.src(dtype) in ("float", "np.float64", "numpy.float64", "np.double", "'float'", "'float64'", "np.float_"))
+        isfloat = None if dtype is None else _dtype_kind(dtype)
         if t in ("asarray", "asanyarray", "ascontiguousarray", "atleast_2d", "atleast_1d"):
             if arg is not None:
                 k, _ = _alias_kind(arg, P)
@@ -1209,8 +1366,7 @@ def _alias_kind(d, P):
                 return ("shallow" if k in ("alias", "shallow") else k), None
         if t == "astype" and isinstance(d.func, ast.Attribute):
             k, _ = _alias_kind(d.func.value, P)
-            tgt_ = au.src(d.args[0]) if d.args else ""
-            return ("deep" if k in ("alias", "shallow", "deep") else k), tgt_ in ("float", "np.float64", "numpy.float64", "np.double", "'float'", "'float64'")
+            return ("deep" if k in ("alias", "shallow", "deep") else k), (_dtype_kind(d.args[0]) if d.args else "?")
         if t in ("stack", "vstack", "concatenate", "row_stack") and arg is not None:
             k, _ = _alias_kind(arg, P)
             return ("deep" if k in ("alias", "shallow", "deep") else k), None
@@ -1271,7 +1427,7 @@ def g1_de_casteljau(ctx):
         return
     P, t = ps
     _DC_PARAMS[:] = [P, t]
-    fl = F.Flow(fn)
+    fl = flow_of(ctx, BEZ, fn)
     # ---- the guard: the function raises exactly when t < 0 or t > 1, whatever the layout of the tests
     from ..rules.c1120_util import paths
     try:
@@ -1378,6 +1534,8 @@ def g1_de_casteljau(ctx):
             elif isinstance(st, ast.AugAssign) and kind == "shallow":
                 ctx.fail("C19-G1", s, "de_casteljau updates an entry in place instead of rebinding it",
                          f"`{au.src(st)[:100]}`: the copy `{dsrc}` is shallow, an augmented assignment mutates the caller's control point (Vec) itself")
+            elif kind == "deep" and isfloat == "?":
+                ctx.undecided("C19-G1", s, "de_casteljau: the dtype requested for the working array is not recognised", f"`{dsrc}`")
             elif kind == "deep" and isfloat is not True and isinstance(d, ast.Call) and au.call_tail(d) in ("array", "asarray"):
                 ctx.fail("C19-G1", s, "de_casteljau stores the blend in place into an array that inherits the dtype of the control points",
                          f"`{au.src(st)[:100]}` writes into `{dsrc}`: with integer control points every blended value is truncated to an integer "
@@ -1435,7 +1593,7 @@ def g1_de_casteljau(ctx):
     # ---- evaluation methods return de_casteljau results and forward their parameters
     for cname, mname in (("BezierCurve", "evaluate"), ("BezierPatch", "_evaluate_row"), ("BezierPatch", "evaluate")):
         m = repo.func(BEZ, f"{cname}.{mname}")
-        fm = F.Flow(m)
+        fm = flow_of(ctx, BEZ, m)
         mps = au.params(m, skip_self=True)
         required = set(mps) - G.defaulted_params(m) - {p.arg for p, d in zip(m.args.kwonlyargs, m.args.kw_defaults) if d is not None}
         rets = [st for st in au.stmts(m.body) if isinstance(st, ast.Return) and st.value is not None]
@@ -1447,16 +1605,20 @@ def g1_de_casteljau(ctx):
                 elts = [leaf]
                 if isinstance(leaf, (ast.ListComp, ast.GeneratorExp)):
                     elts = [leaf.elt]
-                elif isinstance(leaf, (ast.List, ast.Tuple)) and not leaf.elts and isinstance(r.value, ast.Name):
-                    # a list filled by appends in a loop
+                elif isinstance(r.value, ast.Name) and ((isinstance(leaf, (ast.List, ast.Tuple)) and not leaf.elts) or _is_placeholder_list(leaf)):
+                    # a list filled by appends in a loop / a preallocated list filled entry by entry
                     elts = [fm.resolve(c.args[0], at=c, keep=tuple(mps)) for c in au.calls(m) if au.call_tail(c) == "append" and c.args
-                            and isinstance(c.func, ast.Attribute) and isinstance(c.func.value, ast.Name) and c.func.value.id == r.value.id] or [leaf]
+                            and isinstance(c.func, ast.Attribute) and isinstance(c.func.value, ast.Name) and c.func.value.id == r.value.id]
+                    elts += [fm.resolve(st_.value, at=st_, keep=tuple(mps)) for st_ in au.stmts(m.body) if isinstance(st_, ast.Assign)
+                             and any(isinstance(t_, ast.Subscript) and isinstance(t_.value, ast.Name) and t_.value.id == r.value.id for t_ in st_.targets)]
+                    elts = elts or [leaf]
                 for x in elts:
                     x = F.strip_calls(x, ("Vec", "array", "asarray"))
                     if not _is_dc(x):
                         # a violation is an arithmetic combination of control points / evaluations with a parameter of the method;
                         # a call the rule cannot see through is not
-                        arith = isinstance(x, (ast.BinOp, ast.UnaryOp)) or (isinstance(x, ast.Call) and au.call_tail(x) in ("sum", "dot", "einsum", "matmul", "tensordot", "average", "mean"))
+                        arith = (isinstance(x, (ast.BinOp, ast.UnaryOp)) and not _is_placeholder_list(x)) \
+                            or (isinstance(x, ast.Call) and au.call_tail(x) in ("sum", "dot", "einsum", "matmul", "tensordot", "average", "mean"))
                         touches = any(au.is_self_attr(y, "pts") or _is_eval_call(y) for y in ast.walk(x))
                         (modified if (touches and arith) else unknown).append(f"`{au.src(x)[:80]}` is not a de_casteljau evaluation")
                         continue
@@ -1484,21 +1646,18 @@ def g1_de_casteljau(ctx):
     # ---- exports evaluate through the class
     for cname, mname in (("BezierCurve", "as_polyline"), ("BezierPatch", "as_surface")):
         m = repo.func(BEZ, f"{cname}.{mname}")
-        fm = F.Flow(m)
-        vals = []
-        for st in au.stmts(m.body):
-            if isinstance(st, ast.Expr) and isinstance(st.value, ast.Call) and isinstance(st.value.func, ast.Attribute) \
-                    and st.value.func.attr in ("append", "extend") and isinstance(st.value.func.value, ast.Attribute) \
-                    and st.value.func.value.attr == "vertices" and st.value.args:
-                vals.append((st, st.value.args[0]))
-            elif isinstance(st, ast.AugAssign) and isinstance(st.target, ast.Attribute) and st.target.attr == "vertices":
-                vals.append((st, st.value))
+        fm = flow_of(ctx, BEZ, m)
+        vals = F.appended_values(fm, "vertices")
         if not vals:
             ctx.undecided("C19-G1", ctx.site(BEZ, m), f"{cname}.{mname}: vertex append not found", "")
-        for st, v in vals:
-            e = fm.resolve(v, at=st)
+        for st, e in vals:
+            if e is None:
+                ctx.undecided("C19-G1", ctx.site(BEZ, m, st), f"{cname}.{mname}: the vertices appended by a helper are not recognised", f"`{au.src(st)[:100]}`")
+                continue
             verdicts = []
             for conds, leaf in F.alternatives(e):
+                if isinstance(leaf, ast.Constant) and leaf.value is None:
+                    continue            # no vertex at all on this alternative
                 if any(_is_eval_call(x) for x in ast.walk(leaf)):
                     verdicts.append("ok")
                 elif any(au.is_self_attr(x, "pts") for x in ast.walk(leaf)):
@@ -1513,6 +1672,12 @@ def g1_de_casteljau(ctx):
                 ctx.undecided("C19-G1", s, f"{cname}.{mname}: the origin of an appended vertex is not recognised", f"`{au.src(e)[:120]}`")
             else:
                 ctx.ok("C19-G1", s, f"{cname}.{mname}: vertices are evaluations")
+
+
+def _is_placeholder_list(e):
+    """`[None] * n`, `[0] * n`, `n * [None]`: a preallocated list, not arithmetic on points"""
+    return isinstance(e, ast.BinOp) and isinstance(e.op, ast.Mult) and any(isinstance(x, (ast.List, ast.Tuple)) and all(isinstance(y, ast.Constant) for y in x.elts)
+                                                                         for x in (e.left, e.right))
 
 
 def _pts_use(n, fn, depth=0):
@@ -1599,15 +1764,32 @@ def _alias_uses(names, region, fn, depth):
 
 # ----------------------------------------------------------------------- C19-S1
 def s1_as_surface(ctx):
-    spec = GenSpec(BEZ, "BezierPatch.as_surface", {"n1": (2, 5), "n2": (2, 5)}, [], topo="disk", self_obj=X.Opaque("self"),
+    spec = GenSpec(BEZ, "BezierPatch.as_surface", {"n1": (2, 5), "n2": (2, 5)}, [], topo="disk", self_obj=X.self_object(ctx.repo, BEZ, "BezierPatch"),
                    counts=lambda p: {"V": "n1*n2", "F": {4: "(n1-1)*(n2-1)"}}, assoc=True, samples=True)
     r = {"range": "C19-S1", "table": "C19-S1", "counts": "C19-S1", "assoc": "C19-S1"}
+    C.check_generator(ctx, spec, r)
+    # the polyline export: one vertex per parameter sample, consecutive edges, the `t` attribute of vertex k is the parameter it was
+    # evaluated at.  The evaluation itself is abstracted as "a 3D point that depends on t" (C19-G1 decides that it is an evaluation).
+    point3 = ast.parse("def evaluate(self, t):\n    return Vec(t, t, t)").body[0]
+    dc3 = ast.parse("def de_casteljau(P, t):\n    return Vec(t, t, t)").body[0]
+    curve = X.self_object(ctx.repo, BEZ, "BezierCurve")
+    curve.methods["evaluate"] = point3
+    spec = GenSpec(BEZ, "BezierCurve.as_polyline", {"n_pts": (2, 5)}, [], fixed={"custom_pos": None}, self_obj=curve, stubs={"de_casteljau": dc3},
+                   counts=lambda p: {"V": "n_pts", "E": "n_pts-1"}, polyline=lambda p: [(i, i + 1) for i in range(p["n_pts"] - 1)],
+                   assoc=True, samples=True, want_faces=False)
     C.check_generator(ctx, spec, r)
 
 
 # ----------------------------------------------------------------------- C19-E1
 class _NoEval(Exception):
     pass
+
+
+class _RecVal(dict):
+    """value of a NamedTuple / dataclass instance in the per-axis evaluation: field -> value (also indexable by position)"""
+
+
+_E1_RECORDS = {}     # class name -> field names (records declared in the AABB module), filled by e1_empty_box
 
 
 def _vec_eval(e, env, props, depth=0):
@@ -1629,6 +1811,10 @@ def _vec_eval(e, env, props, depth=0):
         return tuple(f(*t) for t in zip(*xs))
     if isinstance(e, ast.Constant) and isinstance(e.value, (int, float, bool)):
         return e.value
+    if isinstance(e, ast.Name) and e.id in env:
+        return env[e.id]
+    if isinstance(e, ast.Tuple) and not any(isinstance(x, ast.Starred) for x in e.elts):
+        return tuple(rec(x) for x in e.elts)
     if isinstance(e, ast.Attribute) and isinstance(e.value, ast.Name) and e.value.id in ("self", "b", "box"):
         if e.attr in env:
             return env[e.attr]
@@ -1637,6 +1823,22 @@ def _vec_eval(e, env, props, depth=0):
         if e.attr in props:
             return _vec_eval(props[e.attr], env, props, depth + 1)
         raise _NoEval(f"attribute {e.attr}")
+    if isinstance(e, ast.Attribute) and e.attr in ("flat", "T", "real"):
+        return rec(e.value)        # views of the same coordinates
+    if isinstance(e, ast.Attribute) and isinstance(e.value, (ast.Attribute, ast.Call, ast.Subscript)):
+        base = rec(e.value)
+        if isinstance(base, _RecVal) and e.attr in base:
+            return base[e.attr]         # field of a NamedTuple / dataclass holding the corners
+        raise _NoEval(f"attribute {e.attr}")
+    if isinstance(e, ast.Call) and isinstance(e.func, ast.Name) and e.func.id in _E1_RECORDS:
+        fields = _E1_RECORDS[e.func.id]
+        vals = [rec(a) for a in e.args if not isinstance(a, ast.Starred)]
+        if len(vals) != len(e.args) or len(vals) + len(e.keywords) != len(fields):
+            raise _NoEval("record construction")
+        out = _RecVal(zip(fields, vals))
+        for k in e.keywords:
+            out[k.arg] = rec(k.value)
+        return out
     if isinstance(e, ast.UnaryOp):
         v = rec(e.operand)
         if isinstance(e.op, ast.Not):
@@ -1707,6 +1909,8 @@ def _vec_eval(e, env, props, depth=0):
     if isinstance(e, ast.Subscript):
         v = rec(e.value)
         k = rec(e.slice) if not isinstance(e.slice, ast.Slice) else None
+        if isinstance(v, _RecVal) and isinstance(k, int) and not isinstance(k, bool) and -len(v) <= k < len(v):
+            return list(v.values())[k]
         if isinstance(v, tuple) and isinstance(k, int) and not isinstance(k, bool) and -len(v) <= k < len(v):
             return v[k]
         raise _NoEval("subscript")
@@ -1719,6 +1923,8 @@ def _vec_eval(e, env, props, depth=0):
             raise _NoEval("keyword arguments")
         v = args[0] if args else None
         vec = v if isinstance(v, tuple) else ((v,) if v is not None else ())
+        if tail in ("ravel", "flatten", "tolist", "copy", "squeeze", "list", "tuple") and len(args) == 1:
+            return v
         if tail == "any" and len(args) == 1:
             return any(vec)
         if tail == "all" and len(args) == 1:
@@ -1757,6 +1963,61 @@ def _raise(msg):
     raise _NoEval(msg)
 
 
+def _inline_empty_test(ctx, fn, allp, tests, box_p, props, stored):
+    """True: every empty box of the small domain meets a raise on every path;  (box, statement): an empty box gets through;
+    None: a test on the box cannot be evaluated"""
+    def on_box(t):
+        return any(isinstance(n, ast.Name) and n.id == box_p for n in ast.walk(t))
+    rename = lambda t: sym.subst(t, {box_p: ast.Name(id="box", ctx=ast.Load())})
+    for d in (1, 2, 3):
+        for vals in itertools.product((0, 1, 2), repeat=2 * d):
+            p1, p2 = tuple(vals[:d]), tuple(vals[d:])
+            if not any(a >= c for a, c in zip(p1, p2)):
+                continue
+            env = {"_p1": p1, "_p2": p2}
+            for attr_, value_, ips_ in stored:
+                try:
+                    env[attr_] = _vec_eval(value_, {ips_[0]: p1, ips_[1]: p2}, {})
+                except _NoEval:
+                    pass
+            for p in allp:
+                if p.end == "raise":
+                    continue
+                feasible = True
+                for tst, pol, kind in p.guards:
+                    if kind != "if":
+                        continue
+                    t = tests[id(tst)]
+                    if not on_box(t):
+                        continue            # a test on something else (mode, dimension switch ...): either way
+                    def tri(x):
+                        """True / False, or None when the value depends on something else than the box"""
+                        if not on_box(x):
+                            return None
+                        if isinstance(x, ast.BoolOp):
+                            vs = [tri(y) for y in x.values]
+                            if isinstance(x.op, ast.And):
+                                return False if any(v_ is False for v_ in vs) else (True if all(v_ is True for v_ in vs) else None)
+                            return True if any(v_ is True for v_ in vs) else (False if all(v_ is False for v_ in vs) else None)
+                        if isinstance(x, ast.UnaryOp) and isinstance(x.op, ast.Not):
+                            v_ = tri(x.operand)
+                            return None if v_ is None else (not v_)
+                        v_ = _vec_eval(as_operators(rename(x)), env, props)
+                        if isinstance(v_, tuple):
+                            raise _NoEval("vector condition")
+                        return bool(v_)
+                    try:
+                        v = tri(t)
+                    except _NoEval:
+                        return None
+                    if v is not None and v != pol:
+                        feasible = False
+                        break
+                if feasible:
+                    return env, (p.stmts[-1] if p.stmts else None)
+    return True
+
+
 def e1_empty_box(ctx):
     repo = ctx.repo
     fn = repo.func(AABB, "AABB.is_empty")
@@ -1772,7 +2033,8 @@ def e1_empty_box(ctx):
     helpers = _aabb_helpers(ctx)
 
     def res(e):
-        return as_operators(inline_self(flm.resolve(e, at=e) if getattr(e, "_parent", None) is not None else e, helpers))
+        own = {x for n in ast.walk(e) if isinstance(n, ast.comprehension) for x in au.assigned_names(n.target)}   # evaluated by iteration
+        return as_operators(inline_self(flm.resolve(e, at=e, keep=tuple(own)) if getattr(e, "_parent", None) is not None else e, helpers))
 
     def evf(f, env):
         if f[0] == "ite":
@@ -1786,6 +2048,20 @@ def e1_empty_box(ctx):
                 raise _NoEval("returns a vector")
             return bool(v)
         raise _NoEval("no returned value")
+    _E1_RECORDS.clear()
+    for q_, c_ in repo.module(AABB).classes.items():
+        info_ = F.record_info(c_)
+        if info_ is not None:
+            _E1_RECORDS[q_.split(".")[-1]] = list(info_[0])
+    # what the constructor stores for the two corners it is given (`self._p1 = Vec(p_min)`, `self._corners = (Vec(p_min), Vec(p_max))` ...)
+    stored = []
+    if repo.has_func(AABB, "AABB.__init__"):
+        init = repo.func(AABB, "AABB.__init__")
+        ips = au.params(init, skip_self=True)
+        if len(ips) == 2:
+            for st in init.body:
+                if isinstance(st, ast.Assign) and len(st.targets) == 1 and au.is_self_attr(st.targets[0]):
+                    stored.append((st.targets[0].attr, st.value, ips))
     if formula is not None:
         wit = None
         n_env = 0
@@ -1794,6 +2070,11 @@ def e1_empty_box(ctx):
             for d in (1, 2, 3):
                 for vals in itertools.product((0, 1, 2), repeat=2 * d):
                     env = {"_p1": tuple(vals[:d]), "_p2": tuple(vals[d:])}
+                    for attr_, value_, ips_ in stored:
+                        try:
+                            env[attr_] = _vec_eval(value_, {ips_[0]: tuple(vals[:d]), ips_[1]: tuple(vals[d:])}, {})
+                        except _NoEval:
+                            pass
                     n_env += 1
                     want = any(a >= c for a, c in zip(env["_p1"], env["_p2"]))
                     if evf(formula, env) != want:
@@ -1816,7 +2097,7 @@ def e1_empty_box(ctx):
     fn = repo.func(SAMP, "sample_AABB")
     site = ctx.site(SAMP, fn)
     box_p = au.params(fn)[0]
-    fl = F.Flow(fn)
+    fl = flow_of(ctx, SAMP, fn)
     from ..rules.c1120_util import paths
     from .. import decide
 
@@ -1843,7 +2124,20 @@ def e1_empty_box(ctx):
                   and ctx.repo.resolve_func(SAMP, c.func.id)]
         inline = [t for t in tests.values() if any(isinstance(n, ast.Attribute) and isinstance(n.value, ast.Name) and n.value.id == box_p
                                                    and n.attr not in ("dim",) for n in ast.walk(t))]
-        if present or called or inline:
+        if inline and not present and not called:
+            # the emptiness test spelled on the corners themselves: evaluated on every small empty box - no path may get through
+            verdict = _inline_empty_test(ctx, fn, allp, tests, box_p, props, stored)
+            if verdict is None:
+                ctx.undecided("C19-E1", site, "sample_AABB: the empty-box test is not an `if box.is_empty(): raise` of the function",
+                              "the test is written on the corners in a form the per-axis evaluation does not follow")
+            elif verdict is True:
+                ctx.ok("C19-E1", site, "sample_AABB: every small empty box is refused by the tests written on its corners")
+            else:
+                box_, stmt_ = verdict
+                ctx.fail("C19-E1", ctx.site(SAMP, fn, stmt_) if stmt_ is not None else site, "sample_AABB: an empty box is not refused on every path",
+                         f"for the box mini={box_['_p1']}, maxi={box_['_p2']} (empty: some axis has mini >= maxi) no test of the function raises: "
+                         f"an empty box has no admissible sample, the sampler must refuse, in both modes")
+        elif present or called or inline:
             ctx.undecided("C19-E1", site, "sample_AABB: the empty-box test is not an `if box.is_empty(): raise` of the function",
                           "the test is written in a form (or delegated to a helper) the rule does not follow")
         else:
